@@ -110,6 +110,14 @@ def check(rep, ctx):
         raised = set()
         returns = 0
         for p in paths:
+            for e in p.effects:
+                if e[0] == "note" and e[1] == "negative-index":
+                    where_ = e[2]
+                    rep.check(R_R, False, construct=f"kio.index:{name}", stmt="sequence indexed by the caller's version",
+                              message=f"{e[3]} (at {where_}): e.g. version -1 resolves to the newest version instead of raising UnknownEntity",
+                              file=src.rel, line=int(where_.rsplit(":", 1)[1]) if where_.rsplit(":", 1)[1].isdigit() else f.node.lineno,
+                              instance=f"{name}|negative-index")
+        for p in paths:
             if p.outcome == "raise":
                 raised.add(short_exc(p.value.cls))
             else:
